@@ -175,10 +175,45 @@ func sliceObjects(w *world.World, name string) []string {
 	return out
 }
 
+// phaseEncoding: per phase, the canonical JSON of every ObjectSetObject (object, collision
+// protection, condition mappings) of a template, with the phase's ObjectSlices resolved against
+// the store in the order the template names them.
+func phaseEncoding(w *world.World, t corev1alpha1.ObjectSetTemplateSpec) (map[string][]string, error) {
+	out := map[string][]string{}
+	for _, ph := range t.Phases {
+		objs := append([]corev1alpha1.ObjectSetObject{}, ph.Objects...)
+		for _, sn := range ph.Slices {
+			so := w.S.Objs[world.PKOKey("ObjectSlice", world.NS, sn)]
+			if so == nil {
+				return nil, fmt.Errorf("phase %q references ObjectSlice %q which does not exist", ph.Name, sn)
+			}
+			var sl corev1alpha1.ObjectSlice
+			b, _ := json.Marshal(so.Content)
+			if err := json.Unmarshal(b, &sl); err != nil {
+				return nil, err
+			}
+			objs = append(objs, sl.Objects...)
+		}
+		for _, ob := range objs {
+			b, _ := json.Marshal(ob)
+			var v any
+			_ = json.Unmarshal(b, &v)
+			nb, _ := json.Marshal(v)
+			out[ph.Name] = append(out[ph.Name], string(nb))
+		}
+	}
+	return out, nil
+}
+
 func runNaming(o checks.Opts) *report.Report {
 	rep := report.New("C14", "slice-names")
-	rep.Rule = "the real Package controller + PackageDeployer (EachObject chunking) deploy images v1{a,b}, v1 again, v2{a,c}; slice names must be equal for equal content and different for different content; with a pre-seeded ObjectSlice that carries the computed name but other content / another controller the name must not be reused"
+	rep.Rule = "the real Package controller + PackageDeployer deploy images v1{a,b} and v1cp (objects with collision-protection and condition-map annotations) under EachObject / BinpackNextFit / default chunking: the deployed template with its ObjectSlices resolved equals, per phase and in order, the ObjectSetObjects of a fresh render (object, collisionProtection, conditionMappings); (EachObject chunking) images v1{a,b}, v1 again, v2{a,c}; slice names must be equal for equal content and different for different content; with a pre-seeded ObjectSlice that carries the computed name but other content / another controller the name must not be reused"
 	images := map[string]map[string]string{"v1": pkgFiles([]string{"a", "b"}, "1"), "v2": pkgFiles([]string{"a", "c"}, "1"), "v1x": pkgFiles([]string{"a", "b"}, "2")}
+	// objects with everything an ObjectSetObject can carry besides the object itself
+	images["v1cp"] = pkgFiles([]string{"a", "b"}, "1")
+	images["v1cp"]["c.yaml"] = pkgw.WidgetYAML("Widget", "c", "p2", "1", map[string]string{"package-operator.run/collision-protection": "IfNoController"})
+	images["v1cp"]["d.yaml"] = pkgw.WidgetYAML("Widget", "d", "p2", "1", map[string]string{"package-operator.run/collision-protection": "None", "package-operator.run/condition-map": "Ready => my/Ready"})
+	images["v1cp"]["e.yaml"] = pkgw.WidgetYAML("Widget", "e", "p1", "1", map[string]string{"package-operator.run/condition-map": "Ready => my/Ready\nProgressing => my/Progressing", "keep": "me"})
 	bad := func(id, f string, a ...any) {
 		rep.AddViolation(report.Violation{Identity: id, Message: fmt.Sprintf(f, a...)})
 	}
@@ -196,6 +231,44 @@ func runNaming(o checks.Opts) *report.Report {
 			}
 		}
 		return refs
+	}
+	// lossless encoding: what the deployer wrote (template + slices) holds, per phase and in
+	// order, exactly the ObjectSetObjects of a fresh render - the objects and their collision
+	// protection and condition mappings
+	for _, strategy := range []string{"EachObject", "BinpackNextFit", ""} {
+		for _, img := range []string{"v1", "v1cp"} {
+			w := newPkgWorld(images, img)
+			_ = w.Edit(world.PKOKey("Package", world.NS, "p"), func(c map[string]any) {
+				a := c["metadata"].(map[string]any)["annotations"].(map[string]any)
+				if strategy == "" {
+					delete(a, "packages.package-operator.run/chunking-strategy")
+				} else {
+					a["packages.package-operator.run/chunking-strategy"] = strategy
+				}
+			})
+			run(w)
+			od := w.S.Objs[osw.ODKey("p")]
+			if od == nil {
+				bad("deploy-error", "image %s strategy %q: no ObjectDeployment", img, strategy)
+				continue
+			}
+			var d corev1alpha1.ObjectDeployment
+			b, _ := json.Marshal(od.Content)
+			_ = json.Unmarshal(b, &d)
+			got, err := phaseEncoding(w, d.Spec.Template.Spec)
+			tctx := pkgw.Context("p", world.NS, map[string]any{}, w.Pkg.Env)
+			tctx.Package.Image = img
+			ref := pkgw.Render(images[img], "", tctx)
+			if err != nil || ref.Err != nil {
+				bad("slices-do-not-encode-phase", "image %s strategy %q: cannot resolve / render: %v %v", img, strategy, err, ref.Err)
+				continue
+			}
+			want, _ := phaseEncoding(w, ref.Spec)
+			rep.Outcomes[fmt.Sprintf("encoding %s %q phases=%d", img, strategy, len(got))]++
+			if !reflect.DeepEqual(got, want) {
+				bad("slices-do-not-encode-phase", "image %s strategy %q: the deployed template with its slices resolved differs from the rendered phases:\n got  %v\n want %v", img, strategy, got, want)
+			}
+		}
 	}
 	w1 := newPkgWorld(images, "v1")
 	n1 := run(w1)
